@@ -1,9 +1,14 @@
+import copy
 import functools
 import operator
 from types import new_class
 from typing import Any, Dict, Optional, Set, Type, TypeVar
 
-from confectioner.templating import set_dotted_key
+from confectioner.templating import (
+    dotted_key_exists,
+    get_dotted_key,
+    set_dotted_key,
+)
 
 from .types import Evaluatable, Options, Value
 
@@ -96,7 +101,14 @@ class _DatasetClassMixin:
 
         self._repr_options = {}
         for key in sorted(self.__class__.keys(options)):  # type: ignore [attr-defined]
-            value = options.get(key)
+            if dotted_key_exists(key, self._repr_options):
+                # Already covered by a section recorded as a whole (sorted order)
+                continue
+            value = (
+                copy.deepcopy(get_dotted_key(key, options))
+                if dotted_key_exists(key, options)
+                else None
+            )
             set_dotted_key(key, value, self._repr_options)
 
     def __repr__(self):
